@@ -16,16 +16,27 @@ def D(d):
     return DAY1 + timedelta(days=int(d) - 1)
 
 
-def holidays_in(ndays):
+def holidays_in(ndays, calendar="NYSE"):
     """exchange holidays of the range, read from the calendar library (trusted)"""
     import pandas_market_calendars
-    cal = pandas_market_calendars.get_calendar("NYSE")
+    cal = pandas_market_calendars.get_calendar(calendar)
     hs = set(np.datetime64(h, "D") for h in cal.holidays().holidays)
     return {d for d in range(1, ndays + 1) if np.datetime64(D(d).date(), "D") in hs}
 
 
+def model_small(ndays, hol, windows, strides, folds):
+    """one full table, no missing days: used for the fold and calendar scenarios"""
+    defs = {"Holidays": set(hol), "Windows": set(windows), "Strides": set(strides),
+            "Bounds": tlagen.Raw("{<<0, 0>>}"), "MissX": tlagen.Raw("{{}}"), "MissY": tlagen.Raw("{{}}"),
+            "YRanges": tlagen.Raw("{<<1, %d>>}" % ndays),
+            "Folds": tlagen.Raw("{" + ", ".join("<<%d, %d>>" % f for f in folds) + "}")}
+    inv = ["StepsDef", "NoStepBeforeWindow", "ObsShape"]
+    return tlagen.mc_module("MC", "Tabular", defs), tlagen.cfg(defs, {"NDays": ndays}, invariants=inv), inv
+
+
 def model(tier, ndays, hol):
-    defs = {"Holidays": set(hol), "Windows": {1, 2, 3} if tier == "quick" else {1, 2, 3, 4, 5},
+    defs = {"Holidays": set(hol), "Folds": tlagen.Raw("{<<0, 0>>}"),
+            "Windows": {1, 2, 3} if tier == "quick" else {1, 2, 3, 4, 5},
             "Strides": {0, 2} if tier == "quick" else {0, 1, 2, 3},
             "Bounds": tlagen.Raw("{<<0, 0>>, <<5, 0>>, <<0, %d>>, <<4, %d>>, <<0, %d>>}" % (ndays - 4, ndays - 2, max(hol) if hol else ndays - 3))}
     bd = [d for d in range(1, ndays + 1) if (d - 1) % 7 < 5]
@@ -54,7 +65,7 @@ def tables(p, seed_shift=0.0):
     return X, Y, rate
 
 
-def build(p, transformer=None, X=None, Y=None, rate=None, transformer_end=None, spread=0.002):
+def build(p, transformer=None, X=None, Y=None, rate=None, transformer_end=None, spread=0.002, calendar="NYSE"):
     from . import impl  # noqa: F401
     from tradingenv.env import TradingEnvXY
     if X is None:
@@ -66,8 +77,11 @@ def build(p, transformer=None, X=None, Y=None, rate=None, transformer_end=None, 
         kw["end"] = D(p["end"])
     if transformer_end is not None:
         kw["transformer_end"] = transformer_end
+    fold = tuple(p.get("fold") or (0, 0))
+    if fold != (0, 0):
+        kw["folds"] = {"training-set": [D(1), D(fold[0]) - timedelta(seconds=1)], "test-set": [D(fold[0]), D(fold[1])]}
     return TradingEnvXY(X, Y, transformer=transformer, window=p["w"], stride=(p["s"] or None), spread=spread, rate=rate,
-                        steps_delay=0, margin=0.0, fee=0.0, markup=0.0, **kw)
+                        steps_delay=0, margin=0.0, fee=0.0, markup=0.0, calendar=calendar, **kw)
 
 
 def replay_chunk(ctx, texts):
@@ -81,7 +95,10 @@ def replay_chunk(ctx, texts):
             continue
         tr = trs[(len(p["dx"]) + p["w"] + out["n"]) % 3]
         bad = None
-        res, env = impl.classify(lambda: build(p, tr))
+        if ctx.get("prebuild"):
+            # another environment with another exchange calendar is created first in the same process
+            impl.classify(lambda: build(p, None, calendar=ctx["prebuild"]))
+        res, env = impl.classify(lambda: build(p, tr, calendar=ctx.get("calendar", "NYSE")))
         case = {"kind": "tabular", "p": {k: (sorted(v) if isinstance(v, frozenset) else v) for k, v in p.items()}, "transformer": tr}
         if res != "ok":
             bad = ("construct", "TradingEnvXY could not be built: %r" % (env,))
@@ -92,7 +109,8 @@ def replay_chunk(ctx, texts):
                 out["fails"].append({"clause": "table", "key": "table/index", "detail": "published table index %s, model %s" % (px[:6], list(o["px"])[:6]), "case": case})
             Xv = X.to_numpy()
             _, Y0, rate0 = tables(p)
-            r1, obs = impl.classify(lambda: env.reset())
+            fold = tuple(p.get("fold") or (0, 0))
+            r1, obs = impl.classify(lambda: env.reset("test-set") if fold != (0, 0) else env.reset())
             k = 0
             shape = (len(o["rows"][0]), Xv.shape[1])
             while bad is None and r1 == "ok":
@@ -190,8 +208,22 @@ def c18(tier, seed):
         "windows 1..3 (1..5 thorough), strides none/2 (none/1/2/3 thorough), start / end bounds given or not",
     ]
     module, cfg, inv = model(tier, ndays, hol)
+    owned = {c for c, ps in CLAUSE_PROPS.items() if "C18" in ps}
     explore.explore_and_replay(rep, "tabular", module, cfg, ("harness.tabular_check", "replay_chunk"), {"holidays": hol},
-                               {c for c, ps in CLAUSE_PROPS.items() if "C18" in ps}, inv, [], chunk=60, workers=8)
+                               owned, inv, [], chunk=60, workers=8)
+    # an episode run in a later fold with a long strided window: the rows replayed at reset must cover the whole window
+    nd = 75
+    h2 = holidays_in(nd)
+    module, cfg, inv = model_small(nd, h2, {12, 5}, {4, 0}, [(0, 0), (61, 75), (64, 72)])
+    explore.explore_and_replay(rep, "tabular-folds", module, cfg, ("harness.tabular_check", "replay_chunk"), {"holidays": h2},
+                               owned, inv, [], chunk=2, workers=2)
+    # two environments with different exchange calendars in one process: each steps by its own calendar
+    nd = 40
+    for cal, other in (("NYSE", "LSE"), ("LSE", "NYSE")):
+        hc = holidays_in(nd, cal)
+        module, cfg, inv = model_small(nd, hc, {1, 2}, {0}, [(0, 0)])
+        explore.explore_and_replay(rep, "tabular-%s-after-%s" % (cal, other), module, cfg, ("harness.tabular_check", "replay_chunk"),
+                                   {"holidays": hc, "calendar": cal, "prebuild": other}, owned, inv, [], chunk=1, workers=2)
     return rep.finish()
 
 
